@@ -30,6 +30,27 @@ use crate::prng::{run_seed, stream, Rng};
 use crate::spec::{gen_queries, gen_spec, Spec};
 use crate::trees::OrderSpec;
 
+/// Indices of the first real queries of a batch (one of each kind): issued by every thread first, so that
+/// whatever a structure does lazily on first use happens on several threads at once.
+fn first_use(batch: &[(Q, A)]) -> Vec<usize> {
+    let mut seen: Vec<std::mem::Discriminant<Q>> = vec![];
+    let mut out = vec![];
+    for (i, (q, _)) in batch.iter().enumerate() {
+        if matches!(q, Q::Len | Q::IsEmpty | Q::NLevels | Q::Sigma | Q::Space) {
+            continue;
+        }
+        let d = std::mem::discriminant(q);
+        if !seen.contains(&d) {
+            seen.push(d);
+            out.push(i);
+        }
+        if out.len() >= 4 {
+            break;
+        }
+    }
+    out
+}
+
 fn shrink_seq(seq: &Seq, max_n: usize, max_d: usize) -> Seq {
     let mut v = seq.expand();
     // keep at most max_d distinct symbols and max_n elements
@@ -90,6 +111,11 @@ fn c18(seed: u64) -> i32 {
         .filter(|(_, a)| !matches!(a, A::Panic(_)))
         .collect();
     println!("c18 scenario seed={seed} structure={} n={} queries={}", x.kind(), spec.n(), batch.len());
+    // the threads share a value nobody has queried yet, so that first-use effects happen under the scheduler
+    let x = match crate::core::catch(|| spec.build()) {
+        Ok(y) => y,
+        Err(_) => return 0,
+    };
     let ok = std::sync::atomic::AtomicBool::new(true);
     let n = batch.len();
     std::thread::scope(|s| {
@@ -98,9 +124,10 @@ fn c18(seed: u64) -> i32 {
             let batch = &batch;
             let ok = &ok;
             s.spawn(move || {
+                // every thread starts with the same few queries (simultaneous first use), then its own slice
                 let start = j * n / 3;
-                for k in 0..(2 * n / 3).max(1) {
-                    let (q, e) = &batch[(start + k) % n];
+                for k in first_use(batch).into_iter().chain((0..(2 * n / 3).max(1)).map(|k| (start + k) % n)) {
+                    let (q, e) = &batch[k % n];
                     let got = x.answer(q);
                     if &got != e {
                         println!("C18-MISMATCH thread {j} query {q:?} answered {got:?}, a single thread gets {e:?}");
@@ -122,8 +149,14 @@ fn c18(seed: u64) -> i32 {
 fn c18all(seed: u64) -> i32 {
     use crate::ds::{Alias, Flat, Path, Ty};
     let mut rng = stream(run_seed(seed, "C18-miri-all", 0), "workload");
-    let n = 36 + rng.usize_below(16);
-    let syms: Vec<u128> = (0..n).map(|i| ((i * 7 + rng.usize_below(3)) % 9) as u128).collect();
+    // ~40 distinct symbols with skewed counts: code tables of several lengths, long enough to be "in progress"
+    let n = 110 + rng.usize_below(30);
+    let syms: Vec<u128> = (0..n)
+        .map(|i| {
+            let r = rng.usize_below(100);
+            (if r < 40 { r % 4 } else if r < 70 { 4 + r % 10 } else { 14 + (i * 7 + r) % 28 }) as u128
+        })
+        .collect();
     let bits: String = (0..(120 + rng.usize_below(40))).map(|_| if rng.below(3) == 0 { '1' } else { '0' }).collect();
     let quads: Vec<u8> = (0..(120 + rng.usize_below(40))).map(|_| rng.below(4) as u8).collect();
     let tys = [Ty::U8, Ty::U16, Ty::U32, Ty::U64, Ty::Usize, Ty::U128];
@@ -144,21 +177,33 @@ fn c18all(seed: u64) -> i32 {
         specs.push(Spec::Quads { kind, syms: quads.clone() });
     }
     let _ = Alias::WT;
+    // one third of the families per scenario (by scenario seed), so that an execution stays affordable
+    let part = (seed % 3) as usize;
+    let specs: Vec<Spec> = specs.into_iter().enumerate().filter(|(i, _)| i % 3 == part).map(|(_, s)| s).collect();
     let mut bad = 0;
     for spec in &specs {
         let x = match crate::core::catch(|| spec.build()) {
             Ok(x) => x,
             Err(_) => continue,
         };
-        let qs = gen_queries(spec, &mut rng, 7);
+        let qs = gen_queries(spec, &mut rng, 13);
         let batch: Vec<(Q, A)> = qs
             .into_iter()
+            .filter(|q| !matches!(q, Q::IterHash | Q::Space | Q::Len | Q::IsEmpty | Q::NLevels | Q::Sigma))
             .map(|q| {
                 let a = crate::core::catch(|| x.answer(&q)).unwrap_or_else(A::Panic);
                 (q, a)
             })
             .filter(|(_, a)| !matches!(a, A::Panic(_)))
             .collect();
+        // fresh value for the threads (nobody has queried it yet)
+        let x = match crate::core::catch(|| spec.build()) {
+            Ok(y) => y,
+            Err(_) => continue,
+        };
+        if batch.is_empty() {
+            continue;
+        }
         let ok = std::sync::atomic::AtomicBool::new(true);
         let n = batch.len();
         std::thread::scope(|s| {
@@ -167,8 +212,9 @@ fn c18all(seed: u64) -> i32 {
                 let batch = &batch;
                 let ok = &ok;
                 s.spawn(move || {
-                    for k in 0..n {
-                        let (q, e) = &batch[(j * 3 + k) % n];
+                    // the same first queries on every thread (simultaneous first use), then a rotated pass
+                    for k in first_use(batch).into_iter().chain((0..n).map(|k| (j * 3 + k) % n)) {
+                        let (q, e) = &batch[k];
                         let got = x.answer(q);
                         if &got != e {
                             println!("C18-MISMATCH {} thread {j} query {q:?} answered {got:?}, a single thread gets {e:?}", x.kind());
